@@ -13,6 +13,8 @@ CLAIMED["C02"] = ("other", "Structural necessary conditions of rollback-journal 
   "CFG path rules, origin rendering of header/argument values, who-may-write tables over go/ssa")
 CLAIMED["C03"] = ("other", "Structural necessary conditions of WAL capture decided on every path: guards of the three WAL write classes, ownership of the capture state, frame discovery (salt and cumulative-checksum tests dominate every recorded frame, chained checksum, success only on a commit frame), capture exactly at write-lock release and before the release, no effect when no transaction is found, header provenance, page selection, publish order, state advance after durability, fatal exit on failure, index bounds of DB.checksum. Does NOT decide equality of the LTX with the reference delta or checksum arithmetic.", "DESIGN.md section 4 C03",
   "CFG path rules, origin rendering, SSA def-use chain check of the cumulative checksum, index-bound guard over go/ssa")
+CLAIMED["C01"] = ("other", "Structural invariants of the replication pipeline decided on every path: position set only after pages, file verification, resize and the post-apply checksum comparison; kernel-cache invalidation on every replica-side change and its wiring; every subscriber notified after every position change; stream-loop dirty-set handling (subscribe before positions, initial set, positions only from what was sent); replica dispatch covering every frame type; replica apply under the write lock after publication. Does NOT decide byte identity of images or convergence time.", "DESIGN.md section 4 C01",
+  "CFG path rules, origin rendering, who-may-call/write tables, mutex-held rule, frame-type table over go/ssa")
 REASONS = {}
 def main():
     checks=[]
